@@ -878,7 +878,7 @@ def run(ctx):
             combine_case(ctx, B, ml, cb, r["core"], r["aps"], r["subs"], variants)
             ctx.count("corpus.combine")
     q = ctx.quick()
-    njoin = 250 if q else 15000
+    njoin = 250 if q else 9000
     for i in range(njoin):
         ctx.check_deadline()
         pose = rng.weighted([("general", 6), ("parallel", 2), ("antiparallel", 2), ("near-parallel", 2), ("near-antiparallel", 2),
@@ -905,7 +905,7 @@ def run(ctx):
             B.run(ctx)
     B.run(ctx)
     fresh_process_check(ctx, ml, 40 if q else 600)
-    ncomb = 100 if q else 6000
+    ncomb = 100 if q else 3500
     for i in range(ncomb):
         ctx.check_deadline()
         k = rng.range(1, 3)
@@ -922,7 +922,7 @@ def run(ctx):
     # the whole command on libraries: every mode × every way of naming the attachment points
     forms = ["none", "shared-label", "labels-any-order"]
     modes = ["permutns", "same", "combns", "combns_repl"]
-    nmain = 12 if q else 240
+    nmain = 12 if q else 160
     for i in range(nmain):
         ctx.check_deadline()
         main_case(ctx, B, ml, cb, variants, modes[i % 4], forms[(i // 4) % 3], i, sample=(i < 1))
